@@ -392,6 +392,297 @@ Proof.
 Qed.
 End SwarmProofs.
 
+(* ---------------------------------------------------------------------- *)
+(* 2b. the swarm against workers that own mutable state                     *)
+Section SwarmEProofs.
+Variables Env Hint : Type.
+Variable spawn : Env -> nat -> Hint -> Env * bool.
+Variable wstepf : Env -> nat -> Env * wstep.
+Variable summarize : Env -> nat -> Hint.
+Variable memlen : Env -> nat -> nat.
+Variable h0 : Hint.
+Variable thr : Q.
+
+Notation rwe := (run_worker_e wstepf thr).
+Notation sle := (sup_loop_e spawn wstepf summarize memlen thr).
+
+Lemma rwe_S w n recent e :
+  rwe w (S n) recent e =
+  let '(e1, st) := wstepf e w in
+  match st with
+  | WStepRaise => (e1, 1, WRaised)
+  | WOut o true => (e1, 1, WSuccess o)
+  | WOut o false =>
+      let recent' := push3 o recent in
+      if collapsed thr recent' then (e1, 1, WCollapse)
+      else let '(e2, c, r) := rwe w n recent' e1 in (e2, S c, r)
+  end.
+Proof. reflexivity. Qed.
+
+(* at most n steps WHATEVER the steps do to the environment; a success is the
+   marked output of the last step taken *)
+Lemma rwe_spec : forall n w recent e e' c r,
+  rwe w n recent e = (e', c, r) ->
+  c <= n /\
+  (forall o, r = WSuccess o -> exists c' e1, c = S c' /\ snd (wstepf e1 w) = WOut o true) /\
+  r <> WNotCreated.
+Proof.
+  induction n as [|n IH]; intros w recent e e' c r H.
+  - cbn in H. inversion H; subst. repeat split; try lia; discriminate.
+  - rewrite rwe_S in H. destruct (wstepf e w) as [e1 st] eqn:B. destruct st as [o [|]|].
+    + inversion H; subst. repeat split; try lia; try discriminate.
+      intros o' Ho. inversion Ho; subst. exists 0, e. rewrite B. split; auto.
+    + cbv zeta in H. destruct (collapsed thr (push3 o recent)).
+      * inversion H; subst. repeat split; try lia; discriminate.
+      * destruct (rwe w n (push3 o recent) e1) as [[e2 c'] r'] eqn:E2.
+        inversion H; subst. apply IH in E2. destruct E2 as (Hle & Hs & Hn).
+        repeat split; [lia | | exact Hn].
+        intros o' Ho. destruct (Hs o' Ho) as (c'' & e3 & -> & Hb).
+        exists (S c''), e3. split; auto.
+    + inversion H; subst. repeat split; try lia; discriminate.
+Qed.
+
+Lemma sle_S steps n w hints e :
+  sle steps (S n) w hints e =
+  let '(e1, ok) := spawn e w hints in
+  if ok then
+    let '(e2, c, r) := rwe w steps [] e1 in
+    match r with
+    | WSuccess o => (e2, [mkWE (mkW w c r) hints 0], [], SSucc w o)
+    | WRaised => (e2, [mkWE (mkW w c r) hints 0], [], SStepRaised)
+    | _ =>
+        let '(e3, ws, rg, f) := sle steps n (S w) (summarize e2 w) e2 in
+        (e3, mkWE (mkW w c r) hints (memlen e2 w) :: ws,
+         (match n with O => [] | S _ => [(w, S w)] end) ++ rg, f)
+    end
+  else (e1, [mkWE (mkW w 0 WNotCreated) hints 0], [], SFactoryRaised).
+Proof. reflexivity. Qed.
+
+Definition sfinal_spec_e (w0 : nat) (ws : list (wrece Hint)) (f : sfinal) : Prop :=
+  match f with
+  | SSucc w o =>
+      exists pre j h ml es e1,
+        ws = pre ++ [mkWE (mkW w (S j) (WSuccess o)) h ml] /\ w = w0 + length pre /\
+        snd (spawn es w h) = true /\ snd (wstepf e1 w) = WOut o true
+  | _ => True
+  end.
+
+Lemma sle_spec : forall steps n w hints e e' ws rg f,
+  sle steps n w hints e = (e', ws, rg, f) ->
+  length ws <= n /\
+  (forall r, In r ws -> w_steps (we_rec r) <= steps) /\
+  (forall i r, nth_error ws i = Some r -> w_idx (we_rec r) = w + i) /\
+  sfinal_spec_e w ws f /\
+  (f = SFail -> length ws = n).
+Proof.
+  induction n as [|n IH]; intros w hints e e' ws rg f H.
+  - cbn in H. inversion H; subst. cbn. repeat split; auto.
+    + intros r [].
+    + intros [|i] r Hr; discriminate.
+  - rewrite sle_S in H. destruct (spawn e w hints) as [e1 ok] eqn:F. destruct ok.
+    + destruct (rwe w steps [] e1) as [[e2 c] r] eqn:E.
+      pose proof (rwe_spec _ _ _ _ _ _ _ E) as (Hc & Hs & Hn).
+      assert (Hrec : forall e3 (ws' : list (wrece Hint)) rg' f',
+                 sle steps n (S w) (summarize e2 w) e2 = (e3, ws', rg', f') ->
+                 (e', ws, rg, f) = (e3, mkWE (mkW w c r) hints (memlen e2 w) :: ws',
+                                    (match n with O => [] | S _ => [(w, S w)] end) ++ rg', f') ->
+                 length ws <= S n /\ (forall r0, In r0 ws -> w_steps (we_rec r0) <= steps) /\
+                 (forall i r0, nth_error ws i = Some r0 -> w_idx (we_rec r0) = w + i) /\
+                 sfinal_spec_e w ws f /\ (f = SFail -> length ws = S n)).
+      { intros e3 ws' rg' f' E' Heq. inversion Heq; subst.
+        apply IH in E'. destruct E' as (Hl & Hst & Hidx & Hfin & Hfail).
+        repeat split.
+        - cbn. lia.
+        - intros r0 [<-|Hr0]; [exact Hc | auto].
+        - intros [|i] r0 Hr0; cbn in Hr0.
+          + inversion Hr0; subst. cbn. lia.
+          + apply Hidx in Hr0. lia.
+        - destruct f'; cbn in Hfin |- *; auto.
+          destruct Hfin as (pre & j & h & ml & es & e4 & -> & -> & Hf & Hb).
+          exists (mkWE (mkW w c r) hints (memlen e2 w) :: pre), j, h, ml, es, e4.
+          cbn. repeat split; auto; try lia.
+        - intros Hf. cbn. rewrite (Hfail Hf). reflexivity. }
+      destruct r as [o| | | |].
+      * inversion H; subst. cbn. repeat split; try lia.
+        -- intros r0 [<-|[]]. exact Hc.
+        -- intros [|[|i]] r0 Hr0; cbn in Hr0; try discriminate. inversion Hr0; subst. cbn. lia.
+        -- destruct (Hs o eq_refl) as (c' & e4 & -> & Hb).
+           exists [], c', hints, 0, e, e4. cbn. rewrite F. repeat split; auto; try lia.
+        -- discriminate.
+      * destruct (sle steps n (S w) (summarize e2 w) e2) as [[[e3 ws'] rg'] f'] eqn:E'.
+        apply (Hrec e3 ws' rg' f' eq_refl (eq_sym H)).
+      * destruct (sle steps n (S w) (summarize e2 w) e2) as [[[e3 ws'] rg'] f'] eqn:E'.
+        apply (Hrec e3 ws' rg' f' eq_refl (eq_sym H)).
+      * inversion H; subst. cbn. repeat split; try lia; try discriminate.
+        -- intros r0 [<-|[]]. exact Hc.
+        -- intros [|[|i]] r0 Hr0; cbn in Hr0; try discriminate. inversion Hr0; subst. cbn. lia.
+      * exfalso. apply Hn. reflexivity.
+    + inversion H; subst. cbn. repeat split; try lia; try discriminate.
+      * intros r0 [<-|[]]. cbn. lia.
+      * intros [|[|i]] r0 Hr0; cbn in Hr0; try discriminate. inversion Hr0; subst. cbn. lia.
+Qed.
+
+Variables max_regenerations max_steps : Z.
+Notation supe := (supervise_e spawn wstepf summarize memlen h0 thr max_regenerations max_steps).
+
+Lemma supervise_e_unfold w0 e :
+  exists e' ws rg f,
+    sle (Z.to_nat max_steps) (Z.to_nat (max_regenerations + 1)) w0 h0 e = (e', ws, rg, f) /\
+    supe w0 e = (e', snd (fst (supe w0 e)), ws) /\
+    let R := snd (fst (supe w0 e)) in
+    s_workers R = map we_rec ws /\
+    match f with
+    | SSucc w o => s_returned R = true /\ s_success R = true /\ s_output R = Some o /\ s_final_worker R = Some w
+    | SFail => s_returned R = true /\ s_success R = false /\ s_output R = None /\ s_final_worker R = None
+    | _ => s_returned R = false /\ s_success R = false /\ s_output R = None /\ s_final_worker R = None
+    end.
+Proof.
+  unfold supervise_e.
+  destruct (sle (Z.to_nat max_steps) (Z.to_nat (max_regenerations + 1)) w0 h0 e) as [[[e' ws] rg] f].
+  exists e', ws, rg, f. destruct f; cbn; repeat split; reflexivity.
+Qed.
+
+Lemma In_map_we_rec (ws : list (wrece Hint)) r :
+  In r (map we_rec ws) -> exists x, In x ws /\ we_rec x = r.
+Proof. intros Hi. apply in_map_iff in Hi. destruct Hi as (x & <- & Hx). exists x. auto. Qed.
+
+Lemma swarm_e_workers_le_proof : forall w0 e,
+  let R := snd (fst (supe w0 e)) in
+  length (s_workers R) <= Z.to_nat (max_regenerations + 1) /\
+  ((0 <= max_regenerations)%Z -> (Z.of_nat (length (s_workers R)) <= max_regenerations + 1)%Z) /\
+  ((max_regenerations < 0)%Z -> s_workers R = []) /\
+  (forall i r, nth_error (s_workers R) i = Some r -> w_idx r = w0 + i).
+Proof.
+  intros w0 e. destruct (supervise_e_unfold w0 e) as (e' & ws & rg & f & E & _ & Hw & _).
+  cbv zeta. rewrite Hw. apply sle_spec in E. destruct E as (Hl & _ & Hidx & _).
+  rewrite map_length. split; [exact Hl|]. split; [lia|]. split.
+  - intros Hm. destruct ws; [reflexivity|]. cbn in Hl. lia.
+  - intros i r Hr. rewrite nth_error_map in Hr.
+    destruct (nth_error ws i) as [x|] eqn:Hx; [|discriminate].
+    cbn in Hr. inversion Hr; subst. exact (Hidx _ _ Hx).
+Qed.
+
+Lemma swarm_e_steps_le_proof : forall w0 e r,
+  In r (s_workers (snd (fst (supe w0 e)))) ->
+  w_steps r <= Z.to_nat max_steps /\
+  ((0 <= max_steps)%Z -> (Z.of_nat (w_steps r) <= max_steps)%Z) /\
+  ((max_steps <= 0)%Z -> w_steps r = 0).
+Proof.
+  intros w0 e r. destruct (supervise_e_unfold w0 e) as (e' & ws & rg & f & E & _ & Hw & _).
+  cbv zeta in Hw. rewrite Hw. apply sle_spec in E. destruct E as (_ & Hst & _).
+  intros Hr. apply In_map_we_rec in Hr. destruct Hr as (x & Hx & <-).
+  apply Hst in Hx. repeat split; lia.
+Qed.
+
+Lemma swarm_e_success_has_marker_proof : forall w0 e,
+  let R := snd (fst (supe w0 e)) in
+  (s_success R = true ->
+     exists pre w j o es h e1,
+       s_workers R = pre ++ [mkW w (S j) (WSuccess o)] /\ w = w0 + length pre /\
+       snd (spawn es w h) = true /\ snd (wstepf e1 w) = WOut o true /\
+       s_output R = Some o /\ s_final_worker R = Some w /\ s_returned R = true) /\
+  (s_success R = false -> s_output R = None).
+Proof.
+  intros w0 e. destruct (supervise_e_unfold w0 e) as (e' & ws & rg & f & E & _ & Hw & Hf).
+  cbv zeta in Hw, Hf |- *. apply sle_spec in E. destruct E as (_ & _ & _ & Hfin & _).
+  destruct f as [w o| | |]; cbn in Hfin.
+  - destruct Hf as (Hr & Hs & Ho & Hfw). split; [|rewrite Hs; discriminate].
+    intros _. destruct Hfin as (pre & j & h & ml & es & e1 & -> & -> & Hfo & Hb).
+    exists (map we_rec pre), (w0 + length pre), j, o, es, h, e1. rewrite Hw.
+    rewrite map_app, map_length. cbn. repeat split; auto.
+  - destruct Hf as (_ & Hs & Ho & _). split; [rewrite Hs; discriminate | auto].
+  - destruct Hf as (_ & Hs & Ho & _). split; [rewrite Hs; discriminate | auto].
+  - destruct Hf as (_ & Hs & Ho & _). split; [rewrite Hs; discriminate | auto].
+Qed.
+
+(* consecutive supervise() calls: environment and worker counter carried over *)
+Lemma swarm_e_history_proof : forall n w0 e w0' R ws,
+  In (w0', R, ws) (swarm_runs_e spawn wstepf summarize memlen h0 thr max_regenerations max_steps n w0 e) ->
+  s_workers R = map we_rec ws /\
+  length (s_workers R) <= Z.to_nat (max_regenerations + 1) /\
+  (forall i r, nth_error (s_workers R) i = Some r -> w_idx r = w0' + i) /\
+  (forall r, In r (s_workers R) -> w_steps r <= Z.to_nat max_steps) /\
+  (s_success R = true ->
+     exists w j o e1, In (mkW w (S j) (WSuccess o)) (s_workers R) /\
+                      snd (wstepf e1 w) = WOut o true /\ s_output R = Some o) /\
+  (s_success R = false -> s_output R = None).
+Proof.
+  induction n as [|n IH]; intros w0 e w0' R ws Hin; [destruct Hin|].
+  cbn [swarm_runs_e] in Hin.
+  destruct (supervise_e_unfold w0 e) as (e' & ws1 & rg & f & _ & Hsup & Hw & _).
+  rewrite Hsup in Hin. destruct Hin as [Heq | Hin]; [|exact (IH _ _ _ _ _ Hin)].
+  inversion Heq; subst. cbv zeta in Hw.
+  split; [exact Hw|].
+  split; [exact (proj1 (swarm_e_workers_le_proof w0' e))|].
+  split; [exact (proj2 (proj2 (proj2 (swarm_e_workers_le_proof w0' e))))|].
+  split.
+  - intros r Hr. exact (proj1 (swarm_e_steps_le_proof w0' e r Hr)).
+  - destruct (swarm_e_success_has_marker_proof w0' e) as (Hs & Hn). split; [|exact Hn].
+    intros Hy. destruct (Hs Hy) as (pre & w & j & o & es & h & e1 & Hws & _ & _ & Hb & Ho & _).
+    exists w, j, o, e1. split; [|split; auto].
+    rewrite Hws. apply in_or_app. right. left. reflexivity.
+Qed.
+End SwarmEProofs.
+
+(* the stateless model of section 2 is the instance "environment = the step
+   index of the current worker": same workers, steps, regenerations, result *)
+Section SwarmStateless.
+Variable factory_ok : nat -> bool.
+Variable beh : nat -> nat -> wstep.
+Variable thr : Q.
+
+Definition sl_spawn (_ : nat) (w : nat) (_ : unit) : nat * bool := (0, factory_ok w).
+Definition sl_step (j : nat) (w : nat) : nat * wstep := (S j, beh w j).
+Definition sl_summ (_ _ : nat) : unit := tt.
+Definition sl_mem (_ _ : nat) : nat := 0.
+
+Lemma rwe_stateless : forall n w j recent,
+  run_worker_e sl_step thr w n recent j =
+  let '(c, r) := run_worker beh thr w n j recent in (j + c, c, r).
+Proof.
+  induction n as [|n IH]; intros w j recent.
+  - cbn. f_equal. f_equal. lia.
+  - rewrite rwe_S, rw_S. unfold sl_step at 1. cbv iota beta zeta.
+    destruct (beh w j) as [o [|]|].
+    + f_equal. f_equal. lia.
+    + destruct (collapsed thr (push3 o recent)).
+      * f_equal. f_equal. lia.
+      * rewrite IH. destruct (run_worker beh thr w n (S j) (push3 o recent)) as [c r].
+        f_equal. f_equal. lia.
+    + f_equal. f_equal. lia.
+Qed.
+
+Lemma sle_stateless : forall steps n w e,
+  let '(_, ws, rg, f) := sup_loop_e sl_spawn sl_step sl_summ sl_mem thr steps n w tt e in
+  (map we_rec ws, rg, f) = sup_loop factory_ok beh thr steps n w.
+Proof.
+  intros steps. induction n as [|n IH]; intros w e.
+  - reflexivity.
+  - rewrite sle_S, sl_S. unfold sl_spawn at 1. cbv iota beta zeta.
+    destruct (factory_ok w); [|reflexivity].
+    rewrite rwe_stateless.
+    destruct (run_worker beh thr w steps 0 []) as [c r].
+    specialize (IH (S w) (0 + c)).
+    destruct r; try reflexivity;
+      destruct (sl_summ (0 + c) w);
+      destruct (sup_loop_e sl_spawn sl_step sl_summ sl_mem thr steps n (S w) tt (0 + c)) as [[[e3 ws] rg] f];
+      destruct (sup_loop factory_ok beh thr steps n (S w)) as [[ws' rg'] f'];
+      inversion IH; subst; reflexivity.
+Qed.
+
+Lemma swarm_stateless_instance_proof : forall (max_regenerations max_steps : Z) (e : nat),
+  snd (fst (supervise_e sl_spawn sl_step sl_summ sl_mem tt thr max_regenerations max_steps 0 e)) =
+  supervise factory_ok beh thr max_regenerations max_steps.
+Proof.
+  intros mg ms e. unfold supervise_e, supervise.
+  pose proof (sle_stateless (Z.to_nat ms) (Z.to_nat (mg + 1)) 0 e) as H.
+  destruct (sup_loop_e sl_spawn sl_step sl_summ sl_mem thr (Z.to_nat ms) (Z.to_nat (mg + 1)) 0 tt e)
+    as [[[e' ws] rg] f].
+  destruct (sup_loop factory_ok beh thr (Z.to_nat ms) (Z.to_nat (mg + 1)) 0) as [[ws' rg'] f'].
+  inversion H; subst. destruct f'; reflexivity.
+Qed.
+End SwarmStateless.
+
 (* ====================================================================== *)
 (* 3. tool loop (re-entrant)                                               *)
 Section ToolProofs.
